@@ -38,6 +38,15 @@ func collect(e *Env, family string, n int, draw func(t *rapid.T) PkgSpec) []PkgS
 	var out []PkgSpec
 	prop := func(t *rapid.T) {
 		s := draw(t)
+		// (C18 draws its documents in pairs and plants its own twins)
+		if family != "C18" && s.Doc != nil {
+			if n := specgen.AddCaseTwins(t, s.Doc); n > 0 {
+				if s.Meta == nil {
+					s.Meta = map[string]any{}
+				}
+				s.Meta["case_twin_components"] = n
+			}
+		}
 		out = append(out, s)
 	}
 	rt.Check("collect-"+family, rt.Seed(e.Seed, rt.SeedStr(family)), n, time.Second, prop)
@@ -334,11 +343,11 @@ func compiledMain(e *Env, check string, specs []PkgSpec, race bool, timeout time
 	r.Extra["programs_detail"] = map[string]any{"drawn": st.Drawn, "rejected_by_goag": st.Rejected, "dropped_not_compiling": st.Dropped, "compiled": st.Kept, "dropped_why": st.DroppedWhy}
 	// the generators only draw specs for which goag is known to produce compilable code
 	// (D_core): a package that does not compile cannot satisfy the property either - no
-	// handler, client or codec of it can be used at all. (C18 reports its rewritten
-	// sides itself.)
-	if check != "C18" {
+	// handler, client or codec of it can be used at all. (C18: the original sides are
+	// such specs; it reports its rewritten sides itself.)
+	{
 		for _, ds := range st.DroppedSpecs {
-			if !strings.HasPrefix(ds.Why, "does not compile") {
+			if !strings.HasPrefix(ds.Why, "does not compile") || (check == "C18" && !strings.HasPrefix(ds.Name, "pc18a")) {
 				continue
 			}
 			r.Fail(res.Failure{Property: check, Kind: "generated-package-does-not-compile:" + strings.Join(strings.Fields(strings.TrimPrefix(ds.Why, "does not compile:"))[:min(6, len(strings.Fields(strings.TrimPrefix(ds.Why, "does not compile:"))))], " "),
@@ -349,8 +358,11 @@ func compiledMain(e *Env, check string, specs []PkgSpec, race bool, timeout time
 	// likewise the generators only draw specs goag accepts (rows it refuses are the
 	// dialect boundary and are excluded): a refused spec means goag has stopped
 	// supporting something it supported, and nothing can be said about its behaviour
-	if check != "C18" {
+	{
 		for _, ds := range st.RefusedSpecs {
+			if check == "C18" && !strings.HasPrefix(ds.Name, "pc18a") {
+				continue
+			}
 			w := strings.Fields(strings.TrimPrefix(ds.Why, "rejected:"))
 			r.Fail(res.Failure{Property: check, Kind: "spec-of-the-dialect-refused:" + strings.Join(w[:min(8, len(w))], " "),
 				Clause: "spec-of-the-dialect-refused", Detail: fmt.Sprintf("goag refused spec %s, which is inside the dialect it is known to accept: %s", ds.Name, ds.Why),
